@@ -195,7 +195,13 @@ func genC13(r *Rng, tier string, idx int) *Program {
 	p.Cfg.StepGapMs = []int64{10, 1000, 1500}[r.Intn(3)]
 	n := r.Range(5, 40)
 	for i := 0; i < n; i++ {
-		switch r.Pick([]int{50, 35, 6, 5, 4}) {
+		switch r.Pick([]int{50, 35, 6, 5, 4, 4, 4}) {
+		case 5:
+			// a reader pins the WAL for a while (the bound is not asserted while it is
+			// open, and must hold again after the first sync once it is gone)
+			p.Ops = append(p.Ops, appOp(Step{K: "reader_begin"}))
+		case 6:
+			p.Ops = append(p.Ops, appOp(Step{K: "reader_end"}))
 		case 0:
 			t := genTxn(r, &p.Cfg)
 			p.Ops = append(p.Ops, appOp(t))
@@ -210,6 +216,11 @@ func genC13(r *Rng, tier string, idx int) *Program {
 		}
 	}
 	// idle phase: k syncs, the clock advanced past CheckpointInterval each time
+	p.Ops = append(p.Ops, appOp(Step{K: "reader_end"}))
+	if r.Chance(0.5) {
+		// the bound must hold right after the first sync once nothing pins the WAL
+		p.Ops = append(p.Ops, Op{Kind: "ls_sync"})
+	}
 	k := r.Range(6, 25)
 	p.Ops = append(p.Ops, Op{Kind: "idle_syncs", N: int64(k), Ms: p.Cfg.CheckpointMs + 1500})
 	return p
